@@ -569,6 +569,11 @@ func genHang(c *ctx) {
 			if h.kind == "dest-full" {
 				h.cfg.overwrite = true // the existing name (a link to /dev/full) is opened for writing
 			}
+			if h.kind == "silence-pause-resume" {
+				// the reader that is paused and resumed is the client's: the silence is the server's, inside the data phase
+				h.dir = dirS2C
+				h.idx = counts[dirS2C]/3 + c.rng.Intn(counts[dirS2C]/3+1)
+			}
 			h.desc = fmt.Sprintf("%s at %s write #%d/%d :: %s", h.kind, []string{"c2s", "s2c"}[h.dir], h.idx, counts[h.dir], describeCfg(h.cfg))
 			cases = append(cases, h)
 		}
